@@ -247,7 +247,7 @@ def run(ctx):
     sims = G.make_sims(rng, 2 if quick else 6)
     batches = G.make_batches(rng, 24 if quick else 96)
     memos = G.make_memo_cases(rng, 12 if quick else 36)
-    unit_groups = G.make_unit_cases(rng, 9 if quick else 30)
+    unit_groups = G.make_unit_cases(rng, 7 if quick else 30)
     for grp in unit_groups:
         cases += grp
     # the implementation-side harness runs while Coq compiles (they do not depend on each other)
